@@ -10,13 +10,16 @@ package main
 
 import (
 	"encoding/json"
+	"fmt"
 	"go/ast"
 	"go/types"
 	"os"
 	"path/filepath"
 	"sort"
+	"strings"
 
 	"golang.org/x/tools/go/ssa"
+	"golang.org/x/tools/go/ssa/ssautil"
 )
 
 type localDecl struct {
@@ -117,4 +120,91 @@ func (eng *Engine) recordedHas(fn *ssa.Function, name string) bool {
 		}
 	}
 	return false
+}
+
+// harnessShims: Go source (one file per package directory, keyed by the directory relative to the repository
+// root) that gives renamed functions their old names back, so that the replay harnesses - in-package tests that
+// call the functions by the names they had when the harnesses were written - still compile.
+var harnessShims = map[string]string{}
+
+func (eng *Engine) buildHarnessShims() {
+	harnessShims = map[string]string{}
+	byPkg := map[*ssa.Package][]string{}
+	imports := map[*ssa.Package]map[string]string{}
+	var fns []*ssa.Function
+	for fn := range ssautil.AllFunctions(eng.prog) {
+		if fn.Pkg != nil && fn.Synthetic == "" && fn.Parent() == nil {
+			if _, ok := eng.keyAlias[eng.rawKey(fn)]; ok {
+				fns = append(fns, fn)
+			}
+		}
+	}
+	sort.Slice(fns, func(i, j int) bool { return eng.rawKey(fns[i]) < eng.rawKey(fns[j]) })
+	for _, fn := range fns {
+		old := eng.bareAlias[fn.Name()]
+		if old == "" {
+			continue
+		}
+		pkg := fn.Pkg
+		if imports[pkg] == nil {
+			imports[pkg] = map[string]string{}
+		}
+		qual := func(p *types.Package) string {
+			if p == pkg.Pkg {
+				return ""
+			}
+			imports[pkg][p.Path()] = p.Name()
+			return p.Name()
+		}
+		sig := fn.Signature
+		var ps, args []string
+		for i := 0; i < sig.Params().Len(); i++ {
+			t := sig.Params().At(i).Type()
+			ts := types.TypeString(t, qual)
+			a := fmt.Sprintf("a%d", i)
+			if sig.Variadic() && i == sig.Params().Len()-1 {
+				ts = "..." + types.TypeString(t.(*types.Slice).Elem(), qual)
+				args = append(args, a+"...")
+			} else {
+				args = append(args, a)
+			}
+			ps = append(ps, a+" "+ts)
+		}
+		var rs []string
+		for i := 0; i < sig.Results().Len(); i++ {
+			rs = append(rs, types.TypeString(sig.Results().At(i).Type(), qual))
+		}
+		res := ""
+		if len(rs) > 0 {
+			res = " (" + strings.Join(rs, ", ") + ")"
+		}
+		ret := ""
+		if len(rs) > 0 {
+			ret = "return "
+		}
+		recv, call := "", fn.Name()
+		if r := sig.Recv(); r != nil {
+			recv = "(r " + types.TypeString(r.Type(), qual) + ") "
+			call = "r." + fn.Name()
+		}
+		byPkg[pkg] = append(byPkg[pkg], fmt.Sprintf("func %s%s(%s)%s { %s%s(%s) }\n", recv, old, strings.Join(ps, ", "), res, ret, call, strings.Join(args, ", ")))
+	}
+	for pkg, decls := range byPkg {
+		var b strings.Builder
+		b.WriteString("package " + pkg.Pkg.Name() + "\n\n// generated by govc: old names of renamed functions, for the replay harnesses\n\n")
+		var paths []string
+		for p := range imports[pkg] {
+			paths = append(paths, p)
+		}
+		sort.Strings(paths)
+		for _, p := range paths {
+			b.WriteString(fmt.Sprintf("import %s %q\n", imports[pkg][p], p))
+		}
+		b.WriteString("\n")
+		for _, d := range decls {
+			b.WriteString(d)
+		}
+		rel := strings.TrimPrefix(strings.TrimPrefix(pkg.Pkg.Path(), "go.1password.io/spg"), "/")
+		harnessShims[rel] = b.String()
+	}
 }
